@@ -300,9 +300,17 @@ def attribute(res):
         for sp in e['spans']:
             if sp['file'].endswith('verif_lemmas.rs'):
                 lemma = sp
+        why = None
+        if site is not None and kind == 'violation' and (site.get('plain_loops') or site.get('calls_uncontracted')):
+            # a loop without invariant havocs what it modifies, a helper without contract returns an arbitrary value:
+            # an obligation that fails after either says nothing about the code -> undecided, never an alarm
+            kind = 'undecided'
+            why = ('%s now contains %s' % (site['fname'], ' and '.join(
+                ([('%d loop(s) for which no invariant is supplied' % site['plain_loops'])] if site.get('plain_loops') else []) +
+                ([('calls of crate function(s) without contract: %s' % ', '.join(site['calls_uncontracted']))] if site.get('calls_uncontracted') else []))))
         fails.append({'props': sorted(p for p in props if re.match(r'~?C\d+$', p)), 'kind': kind, 'message': e['message'],
                       'fn': ('%s::%s' % (site['rel'], site['fname'])) if site else None, 'clause': clause,
-                      'instance': instance, 'lemma_span': lemma, 'rendered': e['rendered'], 'spans': e['spans']})
+                      'instance': instance, 'lemma_span': lemma, 'rendered': e['rendered'], 'spans': e['spans'], 'why': why})
     return fails
 
 
@@ -369,8 +377,15 @@ def main():
                         f['fn'] = 'lemma ' + name
         if [f for f in fails if f['kind'] == 'compile'] or not vz['compiled']:
             verus_undecided = 'verus could not ingest the spliced crate: ' + '; '.join([f['message'] for f in fails[:3]] + vz.get('raw_stderr', [])[:3])[:600]
-        elif [f for f in fails if f['kind'] == 'undecided' and (pid in (f['props'] or []))]:
-            verus_undecided = 'verus resource limit / unsupported on an obligation of this property'
+        elif [f for f in fails if f['kind'] in ('violation', 'undecided') and not f['props'] and not f.get('fn')]:
+            # a failed obligation in code no contract knows (e.g. inside a new helper function): nobody's property, so
+            # nobody may report success either
+            f0 = [f for f in fails if f['kind'] in ('violation', 'undecided') and not f['props'] and not f.get('fn')][0]
+            loc = ['%s:%s' % (sp['file'], sp['line']) for sp in f0.get('spans', []) if sp.get('primary')]
+            verus_undecided = 'verus reports a failed obligation in code that is under no contract (%s at %s)' % (f0['message'], ', '.join(loc) or '?')
+        elif [f for f in fails if f['kind'] == 'undecided' and (pid in (f['props'] or []) or ('~' + pid) in (f['props'] or []))]:
+            ws = sorted(set(f['why'] for f in fails if f['kind'] == 'undecided' and f.get('why') and (pid in (f['props'] or []) or ('~' + pid) in (f['props'] or []))))
+            verus_undecided = ('an obligation of this property cannot be decided by Verus: ' + '; '.join(ws)) if ws else 'verus resource limit / unsupported on an obligation of this property'
         via = [f for f in fails if f['kind'] == 'violation' and ('~' + pid) in (f['props'] or [])]
         if via and verus_undecided is None:
             via_note = ('the proof route of this property runs through %s, which no longer verifies against its RFC specification; '
@@ -503,7 +518,7 @@ def main():
     twin_names = sorted(set(twin_of(f['fn']) for f in my_fails if f.get('fn') and twin_of(f['fn'])))
     have = set(h['name'] for h in kres.get('harnesses', []))
     twin_names = [t for t in twin_names if t not in have]
-    if failed and twin_names:
+    if failed and twin_names and not os.environ.get('VERIF_SKIP_KANI'):
         k2 = kani_run.run_for_property('-', tier, seed, extra_names=twin_names)
         for h in k2.get('harnesses', []):
             if not h['ok'] and not h.get('undecided'):
